@@ -7,6 +7,7 @@ if [ ! -d $WT ]; then git -C /repo worktree add -q --detach $WT HEAD; fi
 git -C $WT reset -q --hard; git -C $WT checkout -q --detach $(git -C /repo rev-parse HEAD)
 export CARGO_NET_OFFLINE=true
 for d in "$@"; do
+  d=$(realpath $d)
   id=$(echo $d | sed 's#.*/\(C[0-9]*\)/\([0-9]*\)/*$#\1_\2#')
   patch=$d/patch.diff; [ -f $d/patch.ported.diff ] && patch=$d/patch.ported.diff
   git -C $WT reset -q --hard; git -C $WT clean -fdq wgsl_to_wgpu/tests
